@@ -79,6 +79,9 @@ func c13Case(r *core.Run, idx int, rng *rand.Rand) {
 	} else {
 		e = env.Static(o)
 	}
+	if idx%6 == 4 {
+		withUnaskedNames(e, r)
+	}
 	wantIssuer := idpEntityID
 	if host != "" {
 		wantIssuer = "https://" + host + "/saml/metadata"
